@@ -736,9 +736,9 @@ func (p Parameters) BinarySize() int {
 func CheckModuli(q, p []uint64) error {
 
 	for i, qi := range q {
-		/* #nosec G115 -- error is returned if integer overflow conversion */
-		if uint64(bits.Len64(qi)-1) > MaxModuliSize+1 {
-			return fmt.Errorf("a Qi bit-size (i=%d) is larger than %d", i, MaxModuliSize)
+		// qi < 2^(MaxModuliSize+1): the lazy NTT butterflies and MRedLazy need 8*qi <= 2^64
+		if bits.Len64(qi) > MaxModuliSize+1 {
+			return fmt.Errorf("a Qi bit-size (i=%d) is larger than %d", i, MaxModuliSize+1)
 		}
 	}
 
@@ -751,9 +751,9 @@ func CheckModuli(q, p []uint64) error {
 	if p != nil {
 
 		for i, pi := range p {
-			/* #nosec G115 -- error is triggered if integer overflow conversion */
-			if uint64(bits.Len64(pi)-1) > MaxModuliSize+2 {
-				return fmt.Errorf("a Pi bit-size (i=%d) is larger than %d", i, MaxModuliSize)
+			// same bound as for Q: the ring arithmetic modulo pi is the same code
+			if bits.Len64(pi) > MaxModuliSize+1 {
+				return fmt.Errorf("a Pi bit-size (i=%d) is larger than %d", i, MaxModuliSize+1)
 			}
 		}
 
